@@ -51,6 +51,7 @@ Cases ==
   \cup { << "verify", n, idx, mut >> : n \in SmallN, idx \in {0, 1, 4}, mut \in 0..12 }
   \cup { << "flip", bit >> : bit \in 0..775 }
   \cup { << "forge", n, mut >> : n \in {1, 2, 3}, mut \in 0..3 }
+  \cup { << "forgepos", n, j >> : n \in {2, 3, 4}, j \in 2..4 }              \* s_j + N at EVERY non-signer position (j > n: skipped to j = n)
   \cup { << "empty", v >> : v \in 0..3 }
   \cup { << "infring", n, v >> : n \in {1, 2, 3}, v \in 0..1 }
   \cup { << "count", c, dl >> : c \in 0..255, dl \in {0, 1, 2} }
@@ -88,6 +89,16 @@ ExpandForge(n, mut) ==
        [] mut = 2 -> WV(WlSerialize(n, SetScalar(data, n, Add(WlScalar(data, n), One))), OnList(n), OffList(n), Ser33(WPt))
        [] mut = 3 -> WV(WlSerialize(n, SubSeq(data, 1, 31) \o << (data[32] + 1) % 256 >> \o SubSeq(data, 33, Len(data))), OnList(n), OffList(n), Ser33(WPt))
 
+\* the same prover, re-encoding the chosen scalar of member j (any position, not only the last) as s_j + N
+ExpandForgePos(n, j0) ==
+  LET j == IF j0 > n THEN n ELSE j0
+      onp == [i \in 1..n |-> OnPt(i)]  offp == [i \in 1..n |-> OffPt(i)]
+      keys == WlRingKeys(onp, offp, WPt)  msg == WlMsg(onp, offp, WPt)
+      sec == SAdd(SMul(SumSec(1), FromBytesBE(Sha256Hash(Ser33(PMulG(SumSec(1)))))), OnSec(1))
+      b == BorSign(keys, [i \in 1..n |-> FromNat(100 + i)], << FromNat(12345) >>, << sec >>, << n >>, << 0 >>, msg)
+      data == b[2] \o Flatten([i \in 1..n |-> Scalar32(b[3][i])])
+  IN WV(WlSerialize(n, SetScalar(data, j, Add(WlScalar(data, j), N))), OnList(n), OffList(n), Ser33(WPt))
+
 \* finding F1: for an EMPTY key list the ring chain degenerates to e0 = H(msg), computable by anyone
 ExpandEmpty(v) ==
   LET msg == Sha256Hash(Ser33(WPt))  e0 == Sha256Hash(msg) IN
@@ -123,6 +134,7 @@ Expand(c) ==
     [] c[1] = "flip" -> LET h == Honest(2, 1) IN WV(FlipBit(WlSerialize(h[2], h[3]), c[2]), OnList(2), OffList(2), Ser33(WPt))
     [] c[1] = "forge" -> ExpandForge(c[2], c[3])
     [] c[1] = "empty" -> ExpandEmpty(c[2])
+    [] c[1] = "forgepos" -> ExpandForgePos(c[2], c[3])
     [] c[1] = "count" -> WV(<< c[2] >> \o Rep(1, 32 * (IF c[2] = 255 THEN 256 ELSE c[2] + c[3])), OnList(1), OffList(1), Ser33(WPt))
 
 -----------------------------------------------------------------------------
